@@ -89,12 +89,24 @@ def firstDiff (a b : Array (Cx Float)) : String :=
 
 /-! ### operator programs -/
 
-/-- Parse a postfix construction program into an `OpExpr` tree. -/
-partial def parseProg (toks : List String) (st : List (OpExpr Float)) : Option (OpExpr Float) :=
-  let push (e : OpExpr Float) (rest : List String) := parseProg rest (e :: st)
+/-- outcome class of a freshly formed sub-program, if it is not a value -/
+def failKind (e : OpExpr Float) : Option String :=
+  match OpExpr.build qftPhase e with
+  | .ok _ => none
+  | .refused => some "refused"
+  | .panic => some "panic"
+
+/-- Parse a postfix construction program into an `OpExpr` tree. The harness executes the tokens one after the
+other and stops at the first refusal / panic; `ff` is that first failure in TOKEN order (for `pushfront` the tree
+order of `OpExpr.build` is the other one, and a program with a refusal in one operand and a panic in the other would
+otherwise be classified differently). -/
+partial def parseProgF (toks : List String) (st : List (OpExpr Float)) (ff : Option String) :
+    Option (OpExpr Float × Option String) :=
+  let push (e : OpExpr Float) (rest : List String) :=
+    parseProgF rest (e :: st) (if ff.isSome then ff else failKind e)
   match toks with
   | [] => match st with
-    | [e] => some e
+    | [e] => some (e, ff)
     | _ => none
   | "id" :: r => push .id r
   | "x" :: m :: r => do push (.g1 .x (← tokNat m)) r
@@ -124,22 +136,25 @@ partial def parseProg (toks : List String) (st : List (OpExpr Float)) : Option (
   | "c" :: m :: r => do
     let m ← tokNat m
     match st with
-    | a :: st' => parseProg r (.c m a :: st')
+    | a :: st' => parseProgF r (.c m a :: st') (if ff.isSome then ff else failKind (.c m a))
     | _ => none
   | "dgr" :: r => match st with
-    | a :: st' => parseProg r (.dgr a :: st')
+    | a :: st' => parseProgF r (.dgr a :: st') ff
     | _ => none
   | op :: r =>
     if op == "mul" || op == "mulassign" || op == "append" || op == "pushall" || op == "cycle" then
       match st with
-      | b :: a :: st' => parseProg r (.mul a b :: st')
+      | b :: a :: st' => parseProgF r (.mul a b :: st') ff
       | _ => none
     else if op == "pushfront" then
       -- `for g in b.rev() { a.push_front(g) }`: the queue b followed by the queue a
       match st with
-      | b :: a :: st' => parseProg r (.mul b a :: st')
+      | b :: a :: st' => parseProgF r (.mul b a :: st') ff
       | _ => none
     else none
+
+def parseProg (toks : List String) (st : List (OpExpr Float)) : Option (OpExpr Float) :=
+  (parseProgF toks st none).map (·.1)
 
 def atomName : Atom Float → String
   | .id => "Id"
@@ -1168,20 +1183,25 @@ def stepInt (st : DSt) (r : Report) (ln : Nat) (cmd obs : Toks) : Option (DSt ×
 def step (st : DSt) (r : Report) (ln : Nat) (cmd obs : List String) : DSt × Report :=
   match cmd with
   | "op" :: prog =>
-    match parseProg prog [] with
+    match parseProgF prog [] none with
     | none => (st, r.mismatch st ln "op" "unparsable-program" (String.intercalate " " obs))
-    | some e =>
+    | some (e, ff) =>
       let b := OpExpr.build qftPhase e
-      let model := builtObs b
+      -- a failing program: the kind of the first failure in token order (what the harness met first)
+      let model := match b, ff with
+        | .ok _, _ => builtObs b
+        | _, some f => f
+        | _, none => builtObs b
       -- the implementation's panic message is not compared, only the fact
       let impl := if implPanicked obs then "panic" else String.intercalate " " obs
       let r := if model == impl then r else r.mismatch st ln "op" model impl
       -- SPEC: outcome class and reported support
       let d := Spec.denote qftPhase e
-      let specObs := match d with
-        | .ok _ supp => s!"ok {supp}"
-        | .refused => "refused"
-        | .panic => "panic"
+      let specObs := match d, ff with
+        | .ok _ supp, _ => s!"ok {supp}"
+        | _, some f => f
+        | .refused, none => "refused"
+        | .panic, none => "panic"
       let implCls := match obs with
         | "ok" :: _ :: acton :: _ => s!"ok {acton}"
         | o :: _ => o
